@@ -293,7 +293,7 @@ GROUPS = [["m01", "m02", "m22"], ["m03", "m04", "m05"], ["m13", "m14"], ["m01", 
           ["m24", "m25"], ["m26", "r05"], ["m08", "m09", "m10"], ["m11", "m12", "m30"], ["m06", "m28", "m29"],
           ["m07", "m15", "m16", "m17"], ["m21", "m23", "m27"], ["r01", "r09", "m01"], ["r10", "m01"],
           ["x01", "x02", "x03", "x04", "x05", "x06"], ["o01", "r03", "r11"], ["m07", "m32"], ["m33", "m27", "m08", "m09"],
-          ["m06", "s01", "m28"], ["m34", "m01"]]
+          ["m06", "s01", "m28"], ["m34", "m01"], ["m35", "m36", "m01"]]
 
 
 def gen_case(rng, eng, shape=None):
@@ -468,6 +468,8 @@ def pinned_classes(eng, mk):
     orders(["m13", "m14", "m21"])                    # nu: init fails AFTER its option was registered; xi wants it
     orders(["m28", "m29", "m06"])                    # psi(300) m:,O | omega O, init fails | zeta(50) m
     orders(["m15", "m17", "m23"])                    # a letter twice in one table
+    orders(["m35", "m36", "m01"])                    # priorities INT_MAX and INT_MIN beside an ordinary one
+    orders(["m36", "m06", "m16"])                    # INT_MIN below 50 and -1
     # -M
     for files, misc in ((["m01.so", "m02.so", "m22.so"], "nosuch"), (["m01.so", "m02.so", "m22.so"], "beta,beta"),
                         (["m01.so", "m02.so", "m22.so"], "tau,beta,alpha"), (["m01.so", "m02.so", "m22.so"], "beta,nosuch,alpha"),
@@ -673,7 +675,12 @@ def run(ctx):
         if so["rc"] == 0 and ("m06.so", True) in so["listed"] and ("m01.so", True) in so["listed"]:
             eng.repaired.add("sameobj")
             ctx.log("an object under a second name is skipped (F17-SAMEOBJ repaired)")
-        dist["variant"] = " ".join(eng.margs + sorted(x for x in eng.repaired if x == "sameobj"))
+        # F17-PRIO-OVERFLOW repaired (findings/C17-prio.patch)?  priority INT_MIN sorts behind priority 100
+        po = eng.observe(eng.run(dict(planned_cases(eng)[0], files=["m36.so", "m01.so"])))
+        if [f for f, _ in po["listed"]] == ["m01.so", "m36.so"]:
+            eng.repaired.add("prio")
+            ctx.log("_cmp_f compares priorities without subtracting them (F17-PRIO-OVERFLOW repaired)")
+        dist["variant"] = " ".join(eng.margs + sorted(x for x in eng.repaired if x in ("sameobj", "prio")))
         if getattr(ctx, "replay", None):
             cases = replay_cases(ctx, eng)
             cov["rule"] = "replay of %s: exactly the recorded case(s), both recorded enumeration orders, every " \
@@ -938,6 +945,21 @@ def check_cases(ctx, eng, cases, cov, dist, distinct, rng):
         tw = eng.twins(c)
         if tw:
             dist["same_object_twice"] = dist.get("same_object_twice", 0) + 1
+        if "prio" not in eng.repaired and eng.uses_env(c):
+            # F17-PRIO-OVERFLOW: _cmp_f returns y->priority - x->priority; for two modules whose priorities are more than
+            # INT_MAX apart the subtraction overflows and the list is no longer in priority order
+            ps = [eng.pool.by_file[f].effective_prio(eng.default_prio) for f in c["files"]
+                  if f in eng.pool.by_file and eng.pool.by_file[f].kind in ("mod", "link")]
+            if ps and max(ps) - min(ps) > 2147483647:
+                dist["priority_overflow_pairs"] = dist.get("priority_overflow_pairs", 0) + 1
+                m1, m2 = parse_model(mlines[i]), parse_model(mlines2[i])
+                bad = slines[i] != "ok" or slines2[i] != "ok" or \
+                    any(o[k] != m[k] for o, m in ((o1, m1), (o2, m2)) for k in ("fatal", "listed", "calls", "opened"))
+                if bad:
+                    ctx.offender("priority-overflow", "modules with priorities %d and %d: the list is %s" % (
+                        max(ps), min(ps), o1["listed"]), {"case": case, "order1": c["files"], "order2": order2,
+                                                         "observed1": o1, "observed2": o2})
+                continue
         if tw and "sameobj" not in eng.repaired:
             # F17-SAMEOBJ: _mod_destroy of the name that loses clears type and name of the descriptor BOTH names share
             m1, m2 = parse_model(mlines[i]), parse_model(mlines2[i])
